@@ -215,7 +215,10 @@ def oracle_cyl(grid, mask, em, cands, kept):
         return out
     vol_cell = lambda i: np.pi * (((i + 1) * dr) ** 2 - (i * dr) ** 2) * dz
     if len(cands) != len(comps):
-        out.append(("count", f"{len(cands)} candidate droplet(s) for {len(comps)} component(s) touching the axis"))
+        # a component that winds around the periodic z axis triggers the spanning fallback (analysis without
+        # periodicity): its pieces are then reported separately -> same class as the volume deviation (F29 b)
+        cls = "winding volume" if per and any(c["lifted"] is None for c in comps) else "count"
+        out.append((cls, f"{len(cands)} candidate droplet(s) for {len(comps)} component(s) touching the axis"))
         return out
     unused = list(range(len(cands)))
     for comp in comps:
